@@ -34,7 +34,7 @@ pub fn check(ls: &LabeledSession, order: &[usize], edits: &[Edit], receive_once:
     // payload edits only when every object announces an MD5 and the writer checks it
     let md5_all = ls.objs.iter().all(|o| o.md5);
     let edits: &[Edit] = if md5_all && md5_check { edits } else { &[] };
-    let rx = RxSpec { receive_once, md5_check, ..RxSpec::default_once() };
+    let rx = RxSpec { receive_once, md5_check, max_objects_error: 8, ..RxSpec::default_once() };
     let d = deliver(ls, order, edits, &rx, Faults::none(), true)?;
     if let Some(e) = d.protocol_errors.first() {
         return Err(format!("an object instance was reported both complete and failed / out of protocol: {}", e));
@@ -65,6 +65,18 @@ pub fn check(ls: &LabeledSession, order: &[usize], edits: &[Edit], receive_once:
             ));
         }
         info.label("completed exact");
+    }
+    // "never reported both complete and failed", as the receiver itself counts: with an unedited
+    // history in which every object instance that got a writer completed (before the receiver is
+    // dropped), nothing may sit in the receiver's list of failed objects (max_objects_error = 8)
+    if edits.is_empty() && !d.writers.is_empty() && d.writers.iter().all(|w| w.completed()) && d.objects_error > 0 {
+        return Err(format!(
+            "every object instance completed ({} writer(s), all complete, bytes exact) but the receiver counts {} failed object(s) (nb_objects_error): an instance is reported both complete and failed; history of {} packets: {:?}",
+            d.writers.len(),
+            d.objects_error,
+            order.len(),
+            order
+        ));
     }
     let in_order = order.windows(2).all(|w| w[0] < w[1]);
     info.nt((!in_order || d.edited_object_payload) && terminal);
